@@ -7,6 +7,9 @@ package dtlcp
 // private keys are counting wrappers supplied through the public Config.
 
 import (
+	"testing/iotest"
+	"github.com/emmansun/gmsm/sm3"
+	"crypto/hmac"
 	"time"
 	"bytes"
 	"crypto"
@@ -86,6 +89,8 @@ type c18Conn struct {
 	// one Config object shared by all such connections of the case with the same Secret; that object
 	// carries the secret (or none: every connection still draws its own)
 	Tenant bool `json:"tenant,omitempty"`
+	// ShortRand: the server's Config.Rand hands out one byte per Read
+	ShortRand bool `json:"shortrand,omitempty"`
 	Hellos []c18Hello `json:"hellos"`
 }
 
@@ -169,6 +174,9 @@ func c18Run(c c18Case) (sig, msg string, nontrivial bool) {
 		if !vfIsECDHE(c.Suite) {
 			ucfg.ClientAuth = NoClientCert
 		}
+		if cn.ShortRand {
+			ucfg.Rand = iotest.OneByteReader(rand.Reader)
+		}
 		tOpsBase := atomic.LoadInt64(&tOps)
 		if cn.Tenant {
 			tn := tenants[cn.Secret%5]
@@ -222,6 +230,19 @@ func c18Run(c c18Case) (sig, msg string, nontrivial bool) {
 					if len(last) > 1 {
 						hello.cookie = append([]byte(nil), last[:h.FlipPos%(len(last)-1)+1]...)
 					}
+				case "weak":
+					// the cookie an attacker computes itself under a guessed weak secret: one byte FlipPos
+					// followed by zeros (FlipMask even) or 32 times that byte (FlipMask odd)
+					guess := make([]byte, 32)
+					guess[0] = byte(h.FlipPos)
+					if h.FlipMask%2 == 1 {
+						guess = bytes.Repeat([]byte{byte(h.FlipPos)}, 32)
+					}
+					mac := hmac.New(sm3.New, guess)
+					mac.Write([]byte{byte(len(cn.Addr) >> 8), byte(len(cn.Addr))})
+					mac.Write([]byte(cn.Addr))
+					mac.Write(hello.marshalForCookie())
+					hello.cookie = mac.Sum(nil)
 				case "byte":
 					hello.cookie = []byte{byte(h.FlipPos)}
 				case "extend":
@@ -430,6 +451,18 @@ func c18Catalogue(suite uint16) []c18Case {
 			c18Conn{Addr: "10.0.0.1:1000", Secret: sec, Tenant: true, Hellos: []c18Hello{prev}})
 		add(c18Conn{Addr: "10.0.0.1:1000", Secret: sec, Tenant: true, Hellos: []c18Hello{b}}, c18Conn{Addr: "10.0.0.1:1000", Secret: sec, Hellos: []c18Hello{prev}})
 	}
+	// no secret configured, randomness that comes one byte per Read: cookies computed by an attacker under
+	// every secret "one byte, then zeros" and "32 times one byte" must all be refused
+	for _, mask := range []byte{2, 1} {
+		var hs []c18Hello
+		for g := 0; g < 256; g++ {
+			w := echo
+			w.Cookie, w.FlipPos, w.FlipMask = "weak", g, mask
+			hs = append(hs, w)
+		}
+		add(c18Conn{Addr: "10.0.0.1:1000", Secret: 0, ShortRand: true, Hellos: hs})
+		add(c18Conn{Addr: "10.0.0.1:1000", Secret: 0, Hellos: hs[:64]})
+	}
 	// split-shift: two (address, parameters) pairs with the same concatenation
 	h1 := c18BaseHello()
 	h1.Vers = 0x3001
@@ -536,13 +569,14 @@ func TestVF_C18(t *testing.T) {
 				if rapid.IntRange(0, 3).Draw(t, "suites") == 0 {
 					h.Suites = h.Suites[:2]
 				}
-				h.Cookie = rapid.SampledFrom([]string{"none", "echo", "echo", "flip", "prev", "random", "trunc", "byte", "extend"}).Draw(t, "cookie")
+				h.Cookie = rapid.SampledFrom([]string{"none", "echo", "echo", "flip", "prev", "random", "trunc", "byte", "extend", "weak"}).Draw(t, "cookie")
 				h.FlipPos = rapid.IntRange(0, 40).Draw(t, "pos")
 				h.FlipMask = byte(rapid.IntRange(1, 255).Draw(t, "mask"))
 				h.Silent = j == nh-1 && rapid.IntRange(0, 3).Draw(t, "silent") == 0
 				cn.Hellos = append(cn.Hellos, h)
 			}
 			cn.NilAddr = rapid.IntRange(0, 4).Draw(t, "niladdr") == 0
+			cn.ShortRand = rapid.IntRange(0, 4).Draw(t, "shortrand") == 0
 			cn.Tenant = rapid.IntRange(0, 4).Draw(t, "tenant") == 0
 			c.Conns = append(c.Conns, cn)
 		}
